@@ -106,7 +106,8 @@ def core_candidates():
             out.append((sh, [(idx, a, o)], SUBSETS[0], "derive"))
     pairs = [(("hash", ("key",)), ("eq", ("key",))), (("eq", ("key",)), ("ord", ("key",))), (("hash", ("by",)), ("eq", ("key",))),
              (("hash", ("key",)), ("ord", ("key",))), (("hash", ("by",)), ("ord", ("by",))), (("hash", ("key",)), ("eq", ("by",))),
-             (("hash", ("ignore",)), ("eq", ("key",))), (("eq", ("by",)), ("hash", ("key",))), (("hash", ("by",)), ("ord", ("reverse", "key")))]
+             (("hash", ("ignore",)), ("eq", ("key",))), (("eq", ("by",)), ("hash", ("key",))), (("hash", ("by",)), ("ord", ("reverse", "key"))),
+             (("eq", ("ignore",)), ("hash", ("key",))), (("ord", ("ignore",)), ("hash", ("by",))), (("eq", ("ignore",)), ("hash", ("by",)))]
     for (a1, o1), (a2, o2) in pairs:
         for sh, idx in (("s_named3", 1), ("e_mixed", 2)):
             for ts in (SUBSETS[0], SUBSETS[2], SUBSETS[3]):
